@@ -43,14 +43,27 @@ func VerifC17_AddApplicationACL() {
 	pc, err := newPartitionContext(conf, "rm-1", nil, false)
 	vAssert(err == nil && pc != nil, "world: partition created")
 	user := vStr("user", "u1", "u2")
-	want := vStr("queue", "root.default", "root.open", "root.unknown", "root.par", "root.par.dyn", "")
+	want := vStr("queue", "root.default", "root.open", "root.unknown", "root.par", "root.par.dyn", "", "root.@recovery@")
 	vSplit("queue")
 	vSplit("user")
 	vSplit("root.submitacl")
-	app := objects.NewApplication(&si.AddApplicationRequest{ApplicationID: "app-1", QueueName: want, PartitionName: "default"},
+	forced := vBool("forced")
+	tags := map[string]string{}
+	if forced {
+		tags["application.create.force"] = "true"
+	}
+	app := objects.NewApplication(&si.AddApplicationRequest{ApplicationID: "app-1", QueueName: want, PartitionName: "default", Tags: tags},
 		security.UserGroup{User: user, Groups: []string{"g1"}}, &vRecorder{}, "rm-1")
+	vAssert(app.IsCreateForced() == forced, "world: the create-forced tag makes a forced application")
 	aerr := pc.AddApplication(app)
-	if aerr == nil {
+	if forced {
+		vAssert(aerr == nil, "A a force-created application is always accepted (recovery queue as the last resort)")
+	}
+	if aerr == nil && app.GetQueuePath() == "root.@recovery@" {
+		q := pc.GetQueue("root.@recovery@")
+		vAssert(forced, "A the recovery queue is not used for an application that is not force-created")
+		vAssert(q != nil && q.IsLeafQueue() && q.GetApplication("app-1") == app && pc.getApplication("app-1") == app, "A a forced application in the recovery queue is registered there")
+	} else if aerr == nil {
 		qp := app.GetQueuePath()
 		q := pc.GetQueue(qp)
 		vAssert(q != nil && q.IsLeafQueue(), "A an accepted application is in an existing leaf queue")
@@ -70,7 +83,6 @@ func VerifC17_AddApplicationACL() {
 		} else {
 			vAssert(qp == "root.default" || qp == "root.open", "A an application is only placed in a configured leaf or a rule-created one")
 		}
-		vAssert(qp != "root.@recovery@", "A the recovery queue is not used for an application that is not force-created")
 	} else {
 		vAssert(pc.getApplication("app-1") == nil, "A a rejected application leaves no trace in the partition")
 		vAssert(pc.GetQueue("root.default").GetApplication("app-1") == nil && pc.GetQueue("root.open").GetApplication("app-1") == nil, "A a rejected application is in no queue")
